@@ -441,6 +441,14 @@ def _param_uses(model: Model, fi: FuncInfo, pname: str, depth: int, seen) -> Lis
         fname = f.id if isinstance(f, ast.Name) else (f.attr if isinstance(f, ast.Attribute) else None)
         if isinstance(f, ast.Name) and fname in _READ_ONLY_CALLS:
             continue
+        if isinstance(f, ast.Name) and fname in ("map", "filter") and len(par_call.args) >= 2 and idx is not None and idx >= 1 and isinstance(par_call.args[0], ast.Name):
+            # map(g, values): every value is handed to g's first parameter (and to nothing else); the iterator itself is
+            # consumed where it stands or judged as a lazy iterator
+            tg_ = model.lookup_target(model.resolve_dotted(fi.module, fi, par_call.args[0].id))
+            if isinstance(tg_, FuncInfo) and tg_.pos_params:
+                sub_ = [u for u in _param_uses(model, tg_, tg_.pos_params[0], depth - 1, seen) if u[2] != "returned"]
+                if not sub_:
+                    continue
         if isinstance(f, ast.Attribute) and fname in _READ_ONLY_METHODS:
             continue
         got = _callee_of(par_call)
